@@ -16,8 +16,10 @@ EXPLANATION = (
     "equals the reference reversal (involution follows). number_splitter<Int>::cut is evaluated for every (offset, count) pair with a "
     "symbolic number: result = bits [offset, offset+count), offset advances by count. Affine normal forms prove that safe_cut of all three "
     "splitters clamps to exactly rest_count() (using the constructors' last_-first_ invariant) and a path rule shows it never calls cut at "
-    "end of stream. A type-level lint forbids narrow shifts that are implicitly widened. NOT decided: MSB/LSB (inline asm), SBC/ZBC/log2* "
-    "(carry arithmetic / built on the asm), the looped split_bitstring::cut and byte_splitter::cut bodies, round trips of cut sequences.")
+    "end of stream. A type-level lint forbids narrow shifts that are implicitly widened. SBC / ZBC (SWAR population count, 32 and 64 bit, and "
+    "the BitOps wrappers) are evaluated in a lane domain (exact affine forms over the input bits per field; a mask or shift that cuts the "
+    "reachable high bits of a field is a definite loss): result = number of set / clear bits for all inputs. NOT decided: MSB/LSB (inline asm), log2* "
+    "(built on the asm), the looped split_bitstring::cut and byte_splitter::cut bodies, round trips of cut sequences.")
 ASSUMPTIONS = ["clang's integer promotion/conversion nodes in the AST are what the compiler applies",
                "no-carry additions are recognised by disjoint supports; anything else is 'unknown' and fails the obligation rather than passing"]
 
@@ -59,5 +61,12 @@ def r25_5(ctx):
 r25_5.rule_id = "R25.5"
 
 
-RULES = [r25_1, r25_2, r25_3, r25_4, r25_5]
-FLOORS = {"R25.1": 18, "R25.2": 3, "R25.3": 3, "R25.4": 20, "R25.5": 6}
+def r25_6(ctx):
+    n = bits.rule_popcount(ctx, "R25.6")
+    if n < 6:
+        ctx.broken("SBC/ZBC functions not found (%d)" % n)
+r25_6.rule_id = "R25.6"
+
+
+RULES = [r25_1, r25_2, r25_3, r25_4, r25_5, r25_6]
+FLOORS = {"R25.1": 18, "R25.2": 3, "R25.3": 3, "R25.4": 20, "R25.5": 6, "R25.6": 6}
